@@ -24,4 +24,13 @@ func runC07(p *Plan) {
 			p.Out.Count("strings-copyto")
 		}
 	}
+	// … and of map[string]any trees: nested maps are copied by a recursive worker that shares the one buffer
+	for i := 0; i < scale(p.Tier, 200, 2000); i++ {
+		m := genTree(r, 3)
+		if m == nil {
+			m = map[string]any{"a": "x", "nested": map[string]any{"b": []byte("yz")}}
+		}
+		OpJCopy(p.Out, m, []Form{FormVal, FormPtr}[r.Intn(2)], "copyto")
+		p.Out.Count("samap-copyto")
+	}
 }
